@@ -132,6 +132,20 @@ UNITS = {
             I(RAW, r'^impl TableLayout$', 'calculate_layout_for', impl='TableLayout'),
         ],
     ),
+    # C09 / C19: the raw iterator core: every FULL bucket exactly once, in order; split partitions
+    'iter': dict(
+        widths=[16, 8],
+        prelude='preludes/iter.rs',
+        specs='contracts/iter.vspec',
+        lemmas=['lemmas/iter_lemmas.rs'],
+        extra='iter_rules',
+        items=[
+            I(RAW, r'^impl < T > RawIterRange < T >$', 'new', impl='RawIterRange<T>', key='RawIterRange::new'),
+            I(RAW, r'^impl < T > RawIterRange < T >$', 'split', impl='RawIterRange<T>', key='RawIterRange::split'),
+            I(RAW, r'^impl < T > RawIterRange < T >$', 'next_impl', impl='RawIterRange<T>', key='RawIterRange::next_impl'),
+            I(RAW, r'^impl < T > Iterator for RawIter < T >$', 'next', impl='RawIter<T>', key='RawIter::next'),
+        ],
+    ),
 }
 
 
@@ -342,6 +356,61 @@ def shrink_rules(toks, i, out, hit):
     if t.text == 'Self' and [x.text for x in toks[i + 1:i + 4]] == [':', ':', 'TABLE_LAYOUT']:
         out.extend([extract.T('Self', t.gap), extract.T(':', ''), extract.T(':', ''), extract.T('table_layout', ''), extract.T('(', ''), extract.T(')', '')])
         hit('R14_assoc_const_TABLE_LAYOUT_to_opaque_fn')
+        return i + 4
+    return None
+
+
+def iter_rules(toks, i, out, hit):
+    """unit `iter`: control pointers and buckets are indices.
+       R15a  `* const u8` (a parameter / field type)  -> `usize`
+       R15b  `P.add(E)` with P a plain path            -> `ptr_add(P, E)`   (in-bounds obligation)
+       R15c  `.cast()`                                   -> dropped (the pointee type is not part of the view)
+       R16   by-value `mut self` parameter (not in the dialect): `(mut self` -> `(self`, the body starts with
+             `let mut self_ = self;` and every later `self` of that function is renamed `self_`"""
+    t = toks[i]
+    n = len(toks)
+    if t.kind == 'id' and t.text == 'fn':
+        _FLAGS['mutself'] = 0
+    if t.kind == 'id' and t.text == 'mut' and out and out[-1].text == '(' and i + 1 < n and toks[i + 1].text == 'self' \
+            and len(out) >= 3 and out[-3].text == 'fn':
+        _FLAGS['mutself'] = 1
+        out.append(extract.T('self', ''))
+        hit('R16_mut_self_param_rebound')
+        return i + 2
+    if _FLAGS.get('mutself') == 1 and t.text == '{':
+        _FLAGS['mutself'] = 2
+        out.append(t)
+        out.extend([extract.T('let', '\n'), extract.T('mut'), extract.T('self_'), extract.T('='), extract.T('self'), extract.T(';', '')])
+        return i + 1
+    if _FLAGS.get('mutself') == 2 and t.kind == 'id' and t.text == 'self':
+        out.append(extract.T('self_', t.gap))
+        return i + 1
+    if t.text == '*' and i + 2 < n and toks[i + 1].text == 'const' and toks[i + 2].text == 'u8':
+        out.append(extract.T('usize', t.gap))
+        hit('R15a_ctrl_pointer_type_to_index')
+        return i + 3
+    if t.kind == 'id' and t.text == 'add' and out and out[-1].text == '.' and i + 1 < n and toks[i + 1].text == '(':
+        j = len(out) - 1
+        k = j - 1
+        while k >= 0 and (out[k].kind == 'id' or out[k].text == '.'):
+            k -= 1
+        recv = out[k + 1:j]
+        if not recv or recv[0].kind != 'id':
+            raise ExtractError('R15b: unsupported receiver for pointer add')
+        close, args = _args_until_close(toks, i + 1)
+        args = extract.rewrite(args, set(), _HITS, iter_rules)
+        del out[k + 1:]
+        out.append(extract.T('ptr_add', recv[0].gap))
+        out.append(extract.T('(', ''))
+        recv[0].gap = ''
+        out.extend(recv)
+        out.append(extract.T(',', ''))
+        out.extend(args)
+        out.append(extract.T(')', ''))
+        hit('R15b_pointer_add_to_index_add')
+        return close + 1
+    if t.text == '.' and i + 3 < n and [x.text for x in toks[i + 1:i + 4]] == ['cast', '(', ')']:
+        hit('R15c_pointer_cast_dropped')
         return i + 4
     return None
 
